@@ -679,6 +679,28 @@ CHECK_DEADLOCK FALSE
     return res, rows
 
 
+def selector_engine(ck, deviations=()):
+    """Selector.tla (EXT): every complete behaviour is a thread schedule executed on a real SelectorTrack."""
+    dev = "{" + ", ".join(f'"{d}"' for d in deviations) + "}"
+    cfg = os.path.join(vlib.SPEC, f"MC_Selector.{os.getpid()}.gen.cfg")
+    with open(cfg, "w") as f:
+        f.write(f"SPECIFICATION Spec\nCONSTANTS\n  Deviations = {dev}\n"
+                f"INVARIANTS EmitDone{'' if deviations else ' FollowsSwitch'}\n"
+                f"{'' if deviations else 'PROPERTIES Delivers'}\nCHECK_DEADLOCK FALSE\n")
+    cases = os.path.join(ck.dir, "selector_cases.ndjson")
+    res = vlib.tlc("MC_Selector", os.path.basename(cfg), timeout=600, tags=("SCHED",), sinks={"SCHED": cases},
+                   tag="MC_Selector", heap="1g")
+    os.remove(cfg)
+    out = os.path.join(ck.dir, "selector_out.ndjson")
+    p = vlib.run_bin("relay", ["selector", cases, out], timeout=900)
+    if p.returncode != 0:
+        raise vlib.ToolError(f"selector replayer failed rc={p.returncode}: {p.stderr[-1500:]}")
+    rows = vlib.read_ndjson(out)
+    os.remove(cases)
+    os.remove(out)
+    return res, rows
+
+
 class DirOnly:
     """what one_config needs from a Check, picklable"""
     def __init__(self, d):
@@ -742,6 +764,7 @@ def run(tier):
         lfuts = [ex.submit(liveness, k, tier) for k in live_cfgs]
         sfut = ex.submit(stress, ck, tier)
         rfut = ex.submit(relay_engine, ck, tier)
+        xfut = ex.submit(selector_engine, ck)
         mfuts = [ex.submit(mc_only, k) for k in CFG.get(tier + "_mc_only", [])]
         done = [futs[label_of(k)].result() for k in cfgs]
         st_out = sfut.result()
@@ -755,6 +778,15 @@ def run(tier):
                              "ops": r["case"]["ops"]})
         ck.cov["ext_relay"] = {"cases": sum(r.get("cases", 0) for r in rrows if r.get("type") == "summary"),
                                "divergences": len(rdiv)}
+        xres, xrows = xfut.result()
+        vlib.tlc_ok(xres, "selector (EXT)")
+        ck.add_tlc(xres, "EXT SelectorTrack: FollowsSwitch, Delivers + schedules")
+        xdiv = [r for r in xrows if r.get("type") == "divergence"]
+        for r in xdiv[:5]:
+            ck.drift.append({"rule": "EXT", "engine": "selector", "kind": r.get("kind"), "expected": r.get("expected"),
+                             "observed": r.get("observed"), "steps": r["case"]["steps"]})
+        ck.cov["ext_selector"] = {"cases": sum(r.get("cases", 0) for r in xrows if r.get("type") == "summary"),
+                                  "divergences": len(xdiv)}
         for f in mfuts:
             lab, res = f.result()
             vlib.tlc_ok(res, "model only " + lab)
@@ -904,6 +936,14 @@ def selftest():
     os.remove(cfg)
     good = any("NoPanic" in e for e in res["errors"])
     print(f"selftest: Relay Deviations={{FeedbackRxNotRestored}} violates NoPanic: {good}")
+    ok &= good
+    cfg = os.path.join(vlib.SPEC, f"MC_Selector_selftest.{os.getpid()}.gen.cfg")
+    with open(cfg, "w") as f:
+        f.write('SPECIFICATION Spec\nCONSTANTS\n  Deviations = {"SwitchNotifiedAfterRead"}\nINVARIANTS FollowsSwitch\nCHECK_DEADLOCK FALSE\n')
+    res = vlib.tlc("MC_Selector", os.path.basename(cfg), workers=2, timeout=300, tag="MC_Selector_selftest", heap="1g")
+    os.remove(cfg)
+    good = any("FollowsSwitch" in e for e in res["errors"])
+    print(f"selftest: Selector Deviations={{SwitchNotifiedAfterRead}} violates FollowsSwitch: {good}")
     ok &= good
     # non-vacuity: the situations the rules speak about are reachable in the quick configurations
     nv = {"NV_DropOldest": K(1, "ss"), "NV_TrylockFails": K(1, "ss"), "NV_WouldBlock": K(1, "s", "t", own=True),
